@@ -91,7 +91,7 @@ slaqgs(SuperMatrix *A, float *r, float *c,
     NCformat *Astore;
     float   *Aval;
     int_t i, j, irow;
-    float large, small, cj;
+    float large, small, cj, temp, big;
     extern double slamch_(char *);
 
 
@@ -107,6 +107,7 @@ slaqgs(SuperMatrix *A, float *r, float *c,
     /* Initialize LARGE and SMALL. */
     small = slamch_("Safe minimum") / slamch_("Precision");
     large = 1. / small;
+    big = 1. / slamch_("Safe minimum"); /* no scale factor exceeds it */
 
     if (rowcnd >= THRESH && amax >= small && amax <= large) {
 	if (colcnd >= THRESH)
@@ -135,7 +136,12 @@ slaqgs(SuperMatrix *A, float *r, float *c,
 	    cj = c[j];
 	    for (i = Astore->colptr[j]; i < Astore->colptr[j+1]; ++i) {
 		irow = Astore->rowind[i];
-		Aval[i] *= cj * r[irow];
+		temp = cj * r[irow];
+		if ( temp <= big ) Aval[i] *= temp;
+		else if ( cj >= r[irow] ) /* cj * r[irow] overflows: larger factor first */
+		    Aval[i] = (cj * Aval[i]) * r[irow];
+		else
+		    Aval[i] = (r[irow] * Aval[i]) * cj;
 	    }
 	}
 	*equed = BOTH;
